@@ -73,6 +73,12 @@ type behaviour struct {
 	neverReady  bool // the port opens but the state machine never reaches STANDBY
 	lingers     bool // stays alive after reaching DONE
 	stuck       bool // accepts Transition calls but never answers them
+	// --- added in the gap pass
+	crashes      bool   // ends (after exitAfter) by a signal nobody asked for: SIGSEGV, the OOM killer, ... instead of exiting
+	doneExitCode int    // controllable: exit code of the process when it ends by itself after reaching DONE
+	startState   string // controllable: the state machine comes up in this state instead of STANDBY (ERROR: start-up failed inside the device)
+	noPid        bool   // controllable: GetState does not report the pid (field left at its proto3 default)
+	firstRunOnly bool   // basic: only the first child behaves as scripted, the later ones run until signalled
 }
 
 func (b behaviour) exits() bool { return b.exitAfter > 0 }
@@ -86,18 +92,30 @@ var (
 	bForksRuns = behaviour{name: "forksruns", forks: true}
 	bStartFail = behaviour{name: "startfail", startFails: true}
 	// controllable
-	cGood      = behaviour{name: "good"}
-	cExit0     = behaviour{name: "exit0", exitAfter: 5 * time.Second}
-	cExit1     = behaviour{name: "exit1", exitAfter: 5 * time.Second, exitCode: 1}
-	cWrapped   = behaviour{name: "wrapped", wrapped: true}
-	cNoListen  = behaviour{name: "nolisten", neverListen: true}
-	cNotReady  = behaviour{name: "notready", neverReady: true}
-	cStuck     = behaviour{name: "stuck", stuck: true}
-	deviceBoot = 300 * time.Millisecond // process start -> control port open
-	deviceInit = 400 * time.Millisecond // port open -> STANDBY
-	doneLinger = 100 * time.Millisecond // DONE -> the process exits by itself
-	dialLimit  = 30 * time.Second       // executorcmd.GRPC_DIAL_TIMEOUT
-	horizon    = 120 * time.Second      // > dial/startup timeout + soft-kill walk + TERM+INT+KILL escalation
+	cGood     = behaviour{name: "good"}
+	cExit0    = behaviour{name: "exit0", exitAfter: 5 * time.Second}
+	cExit1    = behaviour{name: "exit1", exitAfter: 5 * time.Second, exitCode: 1}
+	cWrapped  = behaviour{name: "wrapped", wrapped: true}
+	cNoListen = behaviour{name: "nolisten", neverListen: true}
+	cNotReady = behaviour{name: "notready", neverReady: true}
+	cStuck    = behaviour{name: "stuck", stuck: true}
+	// gap pass: killed by a signal that is not the executor's; non-zero exit after an orderly walk to DONE;
+	// start-up ending in ERROR; OCC servers that do not tell their pid
+	bCrash         = behaviour{name: "crash", exitAfter: time.Second, crashes: true}
+	bForksCrash    = behaviour{name: "forkscrash", forks: true, exitAfter: time.Second, crashes: true}
+	bCrashOnce     = behaviour{name: "crashonce", exitAfter: time.Second, crashes: true, firstRunOnly: true}
+	cCrash         = behaviour{name: "crash", exitAfter: 5 * time.Second, crashes: true}
+	cDoneExit1     = behaviour{name: "doneexit1", doneExitCode: 1}
+	cErrStart      = behaviour{name: "errstart", startState: "ERROR"}
+	cNoPid         = behaviour{name: "nopid", noPid: true}
+	cNoPidStubborn = behaviour{name: "nopidstubborn", noPid: true, ignoreTermInt: true, lingers: true}
+	cNoPidStuck    = behaviour{name: "nopidstuck", noPid: true, stuck: true}
+	cNoPidErrStart = behaviour{name: "nopiderrstart", noPid: true, startState: "ERROR"}
+	deviceBoot     = 300 * time.Millisecond // process start -> control port open
+	deviceInit     = 400 * time.Millisecond // port open -> STANDBY
+	doneLinger     = 100 * time.Millisecond // DONE -> the process exits by itself
+	dialLimit      = 30 * time.Second       // executorcmd.GRPC_DIAL_TIMEOUT
+	horizon        = 120 * time.Second      // > dial/startup timeout + soft-kill walk + TERM+INT+KILL escalation
 	// controlcommands.defaultResponseTimeout: how long the core waits for an answer
 	responseTimeout = 90 * time.Second
 )
@@ -249,6 +267,9 @@ func (r *run) message(data []byte) {
 // startHook is the simulated fork+exec: it decides what the new process does.
 func (r *run) startHook(c *simproc.Cmd) (simproc.Program, error) {
 	b := r.sc.beh
+	if b.firstRunOnly && lastRoot() != nil {
+		b = bRuns
+	}
 	if b.startFails {
 		return nil, &simproc.Error{Name: c.Path, Err: errors.New("fork/exec " + c.Path + ": operation not permitted")}
 	}
@@ -264,7 +285,11 @@ func (r *run) startHook(c *simproc.Cmd) (simproc.Program, error) {
 		}
 		if b.exits() {
 			if p.Sleep(b.exitAfter) {
-				p.Exit(b.exitCode)
+				if b.crashes {
+					p.Crash(syscall.SIGSEGV)
+				} else {
+					p.Exit(b.exitCode)
+				}
 			}
 			return
 		}
@@ -278,7 +303,7 @@ func (r *run) ctlProgram(leader *simproc.Proc, b behaviour) {
 	r.dev = d
 	host := func(p *simproc.Proc) {
 		d.proc = p
-		d.stuck = b.stuck
+		d.stuck, d.noPid = b.stuck, b.noPid
 		p.IgnoreTermInt = b.ignoreTermInt
 		if !p.Sleep(deviceBoot) {
 			return
@@ -297,6 +322,9 @@ func (r *run) ctlProgram(leader *simproc.Proc, b behaviour) {
 			return
 		}
 		d.state = "STANDBY"
+		if b.startState != "" {
+			d.state = b.startState
+		}
 		if b.forks {
 			p.Fork("helper", func(h *simproc.Proc) { h.WaitDeath() })
 		}
@@ -308,7 +336,11 @@ func (r *run) ctlProgram(leader *simproc.Proc, b behaviour) {
 				return
 			}
 			if d.state != "DONE" {
-				p.Exit(b.exitCode)
+				if b.crashes {
+					p.Crash(syscall.SIGSEGV)
+				} else {
+					p.Exit(b.exitCode)
+				}
 				return
 			}
 		} else if !p.WaitFor(func() bool { return d.state == "DONE" }) {
@@ -320,7 +352,7 @@ func (r *run) ctlProgram(leader *simproc.Proc, b behaviour) {
 			return
 		}
 		if p.Sleep(doneLinger) {
-			p.Exit(0)
+			p.Exit(b.doneExitCode)
 		}
 	}
 	if !b.wrapped {
@@ -548,8 +580,8 @@ func (s *scen) check(x *vrt.Exec) (out []vrt.Violation) {
 		if s.beh.startFails || s.beh.neverListen || s.beh.neverReady {
 			break
 		}
-		if p.Root() != p || !p.Signaled() {
-			continue
+		if p.Root() != p || !p.Signaled() || p.Crashed() {
+			continue // (a crash is a signal nobody asked for)
 		}
 		for _, dead := range r.aliveAtReq {
 			if !dead[p] {
@@ -563,9 +595,31 @@ func (s *scen) check(x *vrt.Exec) (out []vrt.Violation) {
 				fail("killed-on-request-reported-failed:"+s.kind.String()+":status", "the child was terminated by the executor after a kill/stop request, status %v", r.updates)
 			}
 		}
+		crashedRoots := 0 // their BASIC_TASK_TERMINATED{FAILED, -1} is the truth
+		for _, p := range simproc.W.Procs {
+			if p.Root() == p && p.Crashed() {
+				crashedRoots++
+			}
+		}
 		for _, b := range r.btt {
 			if b.state == "TASK_FAILED" && b.exitCode == -1 {
+				if crashedRoots > 0 {
+					crashedRoots--
+					continue
+				}
 				fail("killed-on-request-reported-failed:"+s.kind.String()+":BASIC_TASK_TERMINATED", "the child was terminated by the executor after a kill/stop request, event %+v", b)
+			}
+		}
+	}
+	// (2b) killed on request, the orderly way: after a KILL request the executor walked the device to DONE and
+	// the process then ended by itself. That it leaves with a non-zero exit code does not make the task one
+	// that failed: it was told to go.
+	if r.dev != nil && r.dev.doneOnKill && !s.beh.startFails && !s.beh.neverListen && !s.beh.neverReady {
+		if l := lastRoot(); l != nil && !l.Alive() && !l.Signaled() && l.ExitCode() != 0 {
+			for _, u := range terms {
+				if u == "TASK_FAILED" {
+					fail("killed-on-request-reported-failed:"+s.kind.String()+":status:exit-code-after-DONE", "after the KILL request the executor sent the device to DONE, the process then ended by itself (%s); status %v", l.Status(), r.updates)
+				}
 			}
 		}
 	}
@@ -595,12 +649,22 @@ func (s *scen) check(x *vrt.Exec) (out []vrt.Violation) {
 	}
 	if r.killFedAt >= 0 {
 		if sv := survivors(r.killFedAt); len(sv) > 0 {
-			fail("survivors-after-KILL:"+s.kind.String()+":"+strings.Join(sv, "+"), "still running %v at the horizon (%s after the last request)", sv, horizon)
+			clause := "survivors-after-KILL:" + s.kind.String() + ":" + strings.Join(sv, "+")
+			clause += s.mechanism()
+			fail(clause, "still running %v at the horizon (%s after the last request)", sv, horizon)
 		}
 	}
 	if s.kind == kBasic && r.stopFedAt >= 0 {
 		if sv := survivors(r.stopFedAt); len(sv) > 0 {
-			fail("survivors-after-STOP:"+s.kind.String()+":"+strings.Join(sv, "+"), "still running %v at the horizon (%s after the last request)", sv, horizon)
+			fail("survivors-after-STOP:"+s.kind.String()+":"+strings.Join(sv, "+")+s.mechanism(), "still running %v at the horizon (%s after the last request)", sv, horizon)
+		}
+	}
+	// (3b) kill(0, sig) and kill(-1, sig) address the caller's own process group / every process: the executor
+	// would be signalling itself (the simulated kernel refuses with EINVAL instead of ending the execution)
+	for _, sg := range simproc.W.Signals {
+		if strings.Contains(sg, "->0=") || strings.Contains(sg, "->-1=") {
+			fail("executor-crashes:signal-sent-to-its-own-process-group:"+s.kind.String()+s.mechanism(), "kill(2) call %s", sg)
+			break
 		}
 	}
 	// (4) no request makes the executor hang: every goroutine spawned by a request handler returned
@@ -610,9 +674,21 @@ func (s *scen) check(x *vrt.Exec) (out []vrt.Violation) {
 			continue
 		}
 		where := l[strings.Index(l, ": ")+2:]
-		fail("request-handler-never-returns:"+s.kind.String()+":"+stripLine(where), "a goroutine spawned by a request handler is still blocked at the horizon: %s", l)
+		fail("request-handler-never-returns:"+s.kind.String()+":"+stripLine(where)+s.mechanism(), "a goroutine spawned by a request handler is still blocked at the horizon: %s", l)
 	}
 	return out
+}
+
+// mechanism: for the child behaviours added in the gap pass the survivor clauses name the circumstance, so that a
+// known-findings glob written for another defect (e.g. "*:survivors-after-STOP:basic:helper") cannot absorb them
+func (s *scen) mechanism() string {
+	switch {
+	case s.beh.noPid:
+		return ":device-reports-no-pid"
+	case s.beh.crashes:
+		return ":child-died-by-signal"
+	}
+	return ""
 }
 
 // panicSig: panic message class + the first frame inside the executor + the last request.
@@ -783,6 +859,19 @@ func scenarios() (out []*vrt.Scenario) {
 		out = append(out, mk(kBasic, b, "kill-kill", st("START", wRunning), st("KILL", withExit(b, wSettled)...), st("KILL", wNow, wSettled)))
 		out = append(out, mk(kBasic, b, "restart", st("START", wRunning), st("STOP", wSettled, wLater), st("START", wSettled), st("STOP", withExit(b, wSettled, wLater)...)))
 	}
+	// gap pass: a child that dies by a signal the executor did not send (os/exec: ProcessState.Exited() is false for it)
+	for _, b := range []behaviour{bCrash, bForksCrash} {
+		ws := withExit(b, wNow, wSettled, wLater)
+		out = append(out, mk(kBasic, b, "stop", st("START", wRunning), st("STOP", ws...)))
+		out = append(out, mk(kBasic, b, "kill", st("START", wRunning), st("KILL", ws...)))
+	}
+	for _, b := range []behaviour{bCrash, bCrashOnce} {
+		last := []when{wSettled, wLater}
+		if !b.firstRunOnly {
+			last = withExit(b, last...)
+		}
+		out = append(out, mk(kBasic, b, "restart", st("START", wRunning), st("STOP", wSettled, wLater), st("START", wSettled), st("STOP", last...)))
+	}
 	out = append(out, mk(kBasic, bRuns, "idle-stop", st("STOP", wNow, wSettled, wRunning)))
 	out = append(out, mk(kBasic, bRuns, "idle-kill", st("KILL", wNow, wSettled, wRunning)))
 	// ---- hooks
@@ -793,12 +882,24 @@ func scenarios() (out []*vrt.Scenario) {
 		}
 		out = append(out, mk(kHook, b, "trigger-kill", st("TRIGGER", wRunning), st("KILL", ws...)))
 	}
+	out = append(out, mk(kHook, bCrash, "trigger-kill", st("TRIGGER", wRunning), st("KILL", withExit(bCrash, wNow, wSettled, wLater)...)))
 	out = append(out, mk(kHook, bExit0, "idle-kill", st("KILL", wNow, wSettled, wRunning)))
 	out = append(out, mk(kHook, bExit0, "kill-trigger", st("KILL", wRunning), st("TRIGGER", wNow, wSettled)))
 	out = append(out, mk(kHook, bExit0, "kill-kill", st("TRIGGER", wRunning), st("KILL", wSettled, wChildExit), st("KILL", wNow, wSettled)))
 	// ---- controllable tasks
 	for _, b := range []behaviour{cGood, cExit0, cExit1, bStubborn, bForksRuns, cWrapped, cStuck} {
 		out = append(out, mk(kCtl, b, "kill", st("KILL", withExit(b, wNow, wListening, wRunning, wLater)...)))
+	}
+	// gap pass
+	for _, b := range []behaviour{cCrash, cDoneExit1, cNoPid, cNoPidStubborn, cNoPidStuck} {
+		out = append(out, mk(kCtl, b, "kill", st("KILL", withExit(b, wNow, wListening, wRunning, wLater)...)))
+	}
+	out = append(out, mk(kCtl, cErrStart, "kill", st("KILL", wNow, wListening, wSettled, wLater)))
+	out = append(out, mk(kCtl, cNoPidErrStart, "kill", st("KILL", wListening, wLater)))
+	out = append(out, mk(kCtl, cErrStart, "transition", st("CONFIGURE", wListening, wSettled, wLater)))
+	out = append(out, mk(kCtl, cCrash, "transition", st("CONFIGURE", withExit(cCrash, wNow, wListening, wRunning, wLater)...)))
+	for _, b := range []behaviour{cDoneExit1, cNoPidStubborn} {
+		out = append(out, mk(kCtl, b, "run-kill", st("CONFIGURE", wRunning), st("START", wSettled), st("KILL", wSettled)))
 	}
 	out = append(out, mk(kCtl, cNoListen, "kill", st("KILL", wNow, wSettled, wLater)))
 	out = append(out, mk(kCtl, cNotReady, "kill", st("KILL", wNow, wListening, wLater)))
